@@ -21,12 +21,13 @@ def prop(pid, **kw):
 
 
 # per property: harness-name prefix(es), bounds text, what is outside the claim
-UM_OUT = ('every operation whose diff carries cell content (input, arrays, clears, cell styles, borders, named styles, paste, autofill, '
-          'defined names, conditional formats, rename/duplicate sheet, locale/timezone/name/theme) and all structural operations on sheets that '
+UM_OUT = ('every operation whose diff carries cell content (arrays, clears, cell styles, borders, named styles, paste, autofill, '
+          'sheet-local clashes of defined names, conditional formats, rename/duplicate sheet, locale/timezone/name/theme) and all structural operations on sheets that '
           'contain cells - those run the parser, set_user_input and the evaluator; selection/view state is not compared (not listed by the property)')
 UM_BOUNDS = ('one operation (then undo, then redo) from an arbitrary cell-free workbook: <=2 sheets with one column descriptor and one row record each '
              '(symbolic position/flags/styles, widths 8/13/21/34), symbolic frozen panes/grid lines, or <=3 sheets with symbolic visibility for the '
-             'sheet operations; spans of multi-line operations <=2, block moves of 1 line by |offset|<=2; evaluation paused')
+             'sheet operations; spans of multi-line operations <=2, block moves of 1 line by |offset|<=2; evaluation paused; cell input from a menu; one global defined name '
+             'updated (new name / new formula / sheet scope), deleted (addressed in any case) or joined by a second name')
 prop('C01', prefix=['c01'], bounds=UM_BOUNDS, outside=UM_OUT)
 prop('C02', prefix=['c01', 'c02'], bounds=UM_BOUNDS + '; History cursor: any sequence of <=4 push/undo/redo calls', outside=UM_OUT)
 prop('C03', prefix=['c03'], bounds=UM_BOUNDS + '; replica = second model of the same workbook applying the recorded send queue (bitcode cut out)',
